@@ -11,6 +11,7 @@ VARIABLES st, ok
 vars == <<st, ok>>
 Terms == {[k |-> "n", n |-> x] : x \in 0..MaxN} \cup {[k |-> "max", n |-> x] : x \in 0..1}
          \cup {[k |-> "maxdiv", n |-> x] : x \in (IF Esz > 1 THEN {-1, 0, 1} ELSE {-1, 0})}
+         \cup {[k |-> "pow", n |-> e] : e \in 61..63}
 Init == st = Fresh /\ ok = TRUE
 \* an aborting step ends the process: stuttering here, judged all the same
 Commit(m, c) == /\ st' = IF m.ab THEN st ELSE m.s
